@@ -385,6 +385,13 @@ impl ModuleManager {
             imports.remove(name);
         }
 
+        // Drop import declarations that name the deleted module, so that the
+        // declarations stay in step with the import graph and visibility queries
+        // on the remaining modules keep answering.
+        for module in self.modules.values_mut() {
+            module.imports.retain(|i| i.from_module != name);
+        }
+
         Ok(())
     }
 
